@@ -170,6 +170,20 @@ def run(ctx: Any) -> None:
         [D(E(5), E(4))], [FS(E(4))], [FS(E(5))], [S("int"), ("transient", L(S("int"))), O(S("str"))], [L(L(L(S("int"))))], [D(S("str"), L(D(E(1), FS(E(2)))))],
         [FS(C(gen.gen_class(0, hashable=True, force=[FS(E(1)), O(S("float"))])))],
     ]
+    # X | None fields WITH a non-None default / default_factory, explicitly set to None: the null column has to come back
+    # as None, not as the default (scalar, enum, list, frozenset, dict and nested-dataclass optionals)
+    odef = [
+        ("plain", O(S("int")), ("LInt (100)%Z", 100, False)), ("plain", O(S("str")), ("LStr " + H.coq_cps("dflt"), "dflt", False)),
+        ("plain", O(S("bool")), ("LBool true", True, False)), ("plain", O(S("float")), (f"LFloat {H.float_bits(-1.5)}", -1.5, False)),
+        ("plain", O(S("bytes")), ("LBytes " + H.coq_bytes(b"\x00"), b"\x00", False)),
+        ("plain", O(L(S("int"))), ("LEmptyList", list, True)), ("plain", O(FS(E(1))), ("LEmptySet", frozenset, True)),
+        ("plain", O(D(S("str"), S("int"))), ("LEmptyDict", dict, True)), ("plain", O(E(1)), (f"LEnum 1 {H.coq_cps('GREEN')}", H.Color.GREEN, False)), ("plain", O(E(3)), (f"LEnum 3 {H.coq_cps('B')}", H.Swap.B, False)),
+    ]
+    for lo in range(0, len(odef), 2):
+        cdo = gen.gen_class(3, force=[("plain", S("int"))] + odef[lo : lo + 2])
+        ctx.tally("class_source", "optional-with-default")
+        observe(cdo, gen.gen_instance(cdo, none_over_default=True), True, "none-over-default")
+        observe(cdo, gen.gen_instance(cdo), True, "targeted")
     n_inst = 3 if quick else 6
     for force in targeted:
         cd = gen.gen_class(3, force=force)
@@ -191,6 +205,8 @@ def run(ctx: Any) -> None:
         ctx.tally("depth", max([H.depth(f.T, gen.classes) for f in cd.fields if f.kind != "transient"], default=0))
         for _ in range(n_inst):
             observe(cd, gen.gen_instance(cd), True, "random")
+        if gen.has_optional_with_default(cd):  # always: the instance that sets those fields to None
+            observe(cd, gen.gen_instance(cd, none_over_default=True), True, "none-over-default")
         if any(f.kind == "transient" for f in cd.fields) and ctx.rng.random() < 0.7:
             x = gen.gen_instance(cd, transient_nondefault=True)
             dom = all(H.deep_eq(getattr(x, f.name), f.default[1]() if f.default[2] else f.default[1]) for f in cd.fields if f.kind == "transient")
